@@ -184,3 +184,12 @@ def notrace():
         return NoTracing()
     import contextlib
     return contextlib.nullcontext()
+
+
+def pick(v, n, lo=0):
+    """concretise a small symbolic index by case split: one solver decision per value.  (Indexing a list or dict with a symbolic int
+    makes CrossHair build a symbolic lookup that costs far more than the enumeration it stands for.)"""
+    for i in range(lo, n):
+        if v == i:
+            return i
+    return v
